@@ -22,6 +22,8 @@ PID = "C06"
 LEVEL = "exploration"
 CASE_TIMEOUT = 40
 RULE = (
+    "enumerated: a same-event race family (flow p queues start/activate/await of b, an action or a send while its parent q finishes/aborts/returns on the same "
+    "event; both advancing orders; b pre-activated or not; p and q started or activated; 640 programs x 2 histories incl. idle time); generated: "
     "program from the co2 grammar (hierarchies up to depth 4 through start/await/activate, when/or when, await groups, abort/return, "
     "actions with references); history of 1-30 items (events, guided 'hit' events, Started/Finished of the k-th running action - so "
     "Finished may arrive before the flow waits for it, late, or never); tie-break choices drawn. Non-trivial = during the history a flow "
@@ -46,6 +48,37 @@ def _case(draw):
 
 def strategy(tier):
     return _case()
+
+
+# Same-event races (enumerated): flow p advances on an event and queues an internal event (start / activate / await of b, an
+# action, a plain send) while, on the very same external event, its parent q ends (finish / abort / return). Both orders of
+# advancing (p more specific than q, or less), b already activated by main or not, p/q started or activated.
+RACE_X = ["activate b", "start b as $rb", "await b", 'start UtteranceBotAction(script="x") as $ax', "send OutP()"]
+RACE_EXIT = ["", "  abort\n", "  return\n", "  send OutQ()\n"]
+
+
+def _race_text(x, p_specific, exit_stmt, main_activates_b, start_p, start_q):
+    pm, qm = ("match E(v=1)", "match E()") if p_specific else ("match E()", "match E(v=1)")
+    lines = ["flow b", "  match Eb()", "  send OutB()", "", "flow p", f"  {pm}", f"  {x}", "  match NeverP()", ""]
+    lines += ["flow q", f"  {start_p} p", f"  {qm}"] + ([exit_stmt.rstrip("\n")] if exit_stmt else []) + [""]
+    lines += ["flow keeper", "  activate b", "  match StopKeeper()", ""]
+    lines += ["flow main"] + (["  start keeper"] if main_activates_b else []) + [f"  {start_q} q", "  match Other()", "  match Never()", ""]
+    return "\n".join(lines)
+
+
+def enumerate_cases(tier):
+    hists = [
+        [["raw", "E", 1], ["raw", "Eb", None], ["raw", "StopKeeper", None], ["raw", "Eb", None], ["raw", "E", 1], ["raw", "Eb", None]],
+        [["raw", "E", 1], ["age"], ["raw", "Eb", None], ["raw", "Other", None], ["raw", "StopKeeper", None], ["raw", "Eb", None], ["raw", "E", 1]],
+    ]
+    for x in RACE_X:
+        for p_specific in (True, False):
+            for ex in RACE_EXIT:
+                for mab in (False, True):
+                    for sp in ("start", "activate"):
+                        for sq in ("start", "activate"):
+                            for h in hists:
+                                yield {"leg": "race", "text": _race_text(x, p_specific, ex, mab, sp, sq), "hist": h, "choices": [], "activators": {"b": ["keeper", "p"] if mab else ["p"], "p": ["q"], "q": ["main"]}}
 
 
 def _activators(prog):
@@ -162,8 +195,12 @@ def _check_activation_liveness(cur, ledger, confirmed, text, where):
 
 
 def prop(case):
-    text = co2.render(case["prog"])
-    activators = _activators(case["prog"])
+    if case.get("leg") == "race":
+        text = case["text"]
+        activators = {k: set(v) for k, v in case["activators"].items()}
+    else:
+        text = co2.render(case["prog"])
+        activators = _activators(case["prog"])
     try:
         s = smh.Session(text, case["choices"])
     except Exception as e:
@@ -183,7 +220,12 @@ def prop(case):
     fed = 0
     late_finish = 0
     for i, item in enumerate(case["hist"]):
-        ev = s.concrete(item)
+        if item[0] == "raw":
+            ev = {"type": item[1]}
+            if item[2] is not None:
+                ev["v"] = item[2]
+        else:
+            ev = s.concrete(item)
         if ev is None:
             continue
         if ev["type"].endswith("ActionFinished") and "action_uid" in ev:
@@ -201,8 +243,10 @@ def prop(case):
         if _check_step(prev, cur, ledger, outs, activators, text, where):
             nt = True
         confirm()
-    kinds = co2.count_kinds(case["prog"])
-    labels = []
+    from collections import Counter
+
+    kinds = co2.count_kinds(case["prog"]) if case.get("leg") != "race" else Counter()
+    labels = ["race-family"] if case.get("leg") == "race" else []
     if nt:
         labels.append("flow-ended-with-dependants")
     if ledger.stops:
